@@ -114,13 +114,15 @@ Section Jobmap.
   Inductive jevent :=
   | JRun (p : jparams)
   | JCorrupt (nm : string)                 (* the cached output file is damaged *)
-  | JPut (k : string) (v : value).         (* somebody stores a result in the destination (any key) *)
+  | JPut (k : string) (v : value)          (* somebody stores a result in the destination (any key) *)
+  | JNewDst.                               (* the next runs go to a new, empty destination (same cache directory) *)
 
   Definition jstep (st : jstate) (ev : jevent) : jstate :=
     match ev with
     | JRun p => jobmap p st
     | JCorrupt nm => mk_js (js_src st) (js_dst st) (dset nm CCorrupt (js_cache st)) (js_count st)
     | JPut k v => mk_js (js_src st) (dset k v (js_dst st)) (js_cache st) (js_count st)
+    | JNewDst => mk_js (js_src st) [] (js_cache st) (js_count st)
     end.
 
   (* states after every event *)
